@@ -414,6 +414,10 @@ func (r *Run) verifyTop() {
 	for _, cl := range fc.Requires {
 		r.assume(st, r.evalBool(env, cl))
 	}
+	for _, cl := range fc.Assumes {
+		r.assume(st, r.evalBool(env, cl))
+		r.noteAssume(fmt.Sprintf("assumed on the inputs of %s (not checked at call sites): %s", r.funcLabel(), cl.Src))
+	}
 	// guards of known findings on this function's obligations (evaluated over the entry state)
 	r.guards = map[string]*Term{}
 	for i := range e.known {
